@@ -20,4 +20,9 @@ MUTANTS = [
   "edits": [(D, "        let v: Vec<&str> = pkg.rsplitn(2, '-').collect();\n        if v.len() != 2 {\n            return false;\n        }\n        if v[1] != self.pkgname {\n            return false;\n        }\n        let pkgver = DeweyVersion::new(v[0]);",
                 "        let Some((base, ver)) = split_pkgname(pkg) else {\n            return false;\n        };\n        if base != self.pkgname {\n            return false;\n        }\n        let pkgver = DeweyVersion::new(ver);"),
             (D, "impl Dewey {\n", "fn split_pkgname(pkg: &str) -> Option<(&str, &str)> {\n    let v: Vec<&str> = pkg.rsplitn(2, '-').collect();\n    if v.len() != 2 {\n        return None;\n    }\n    Some((v[1], v[0]))\n}\n\nimpl Dewey {\n")]},
+
+ {"id": "probe-base-compared-case-insensitively", "kind": "break", "edits": [(D, "        if v[1] != self.pkgname {\n            return false;\n        }", "        if !v[1].eq_ignore_ascii_case(&self.pkgname) {\n            return false;\n        }")], "expect": ["D2-"]},
+ {"id": "probe-base-prefix-compare", "kind": "break", "edits": [(D, "        if v[1] != self.pkgname {\n            return false;\n        }", "        if !v[1].starts_with(self.pkgname.as_str()) {\n            return false;\n        }")], "expect": ["D2-"]},
+ {"id": "probe-no-dash-matches-empty-version", "kind": "break", "edits": [(D, "        if v.len() != 2 {\n            return false;\n        }\n        if v[1] != self.pkgname {", "        if v.len() != 2 {\n            return pkg == self.pkgname && self.matches.is_empty();\n        }\n        if v[1] != self.pkgname {")], "expect": ["D2-"]},
+ {"id": "probe-two-ops-same-direction-accepted-when-equal-text", "kind": "break", "edits": [(D, "(DeweyOp::GT | DeweyOp::GE, DeweyOp::LT | DeweyOp::LE) => {}", "(DeweyOp::GT | DeweyOp::GE, DeweyOp::LT | DeweyOp::LE) => {}\n                    (a, b) if a == b => {}")], "expect": ["D1-VALIDATE"]},
 ]
